@@ -35,6 +35,7 @@ CXX = "g++"
 CXX_BASE = ["-std=c++17", "-O1", "-g", "-fno-omit-frame-pointer", "-fno-exceptions", "-D" + GUARD + "=1"]
 SAN = ["-fsanitize=address,undefined", "-fno-sanitize-recover=all"]
 SAN_ENV = {
+    "TSAN_OPTIONS": "halt_on_error=1:exitcode=66:second_deadlock_stack=1",
     "ASAN_OPTIONS": "detect_leaks=1:abort_on_error=0:exitcode=66:allocator_may_return_null=1:detect_stack_use_after_return=0",
     "UBSAN_OPTIONS": "print_stacktrace=1:halt_on_error=1:exitcode=66",
 }
@@ -283,7 +284,8 @@ def build_cpp(name, src, defines=(), san=True, extra=(), opt=None, std_inc=True)
     with Lock("cpp_" + name):
         exe = os.path.join(BUILD, name)
         srcp = os.path.join(ROOT, "cpp", src)
-        flags = list(CXX_BASE) + (SAN if san else []) + ["-D" + d for d in defines] + list(extra)
+        sanflags = ["-fsanitize=thread", "-pthread"] if san == "thread" else (SAN if san else [])
+        flags = list(CXX_BASE) + sanflags + ["-D" + d for d in defines] + list(extra)
         if opt:
             flags = [f for f in flags if not f.startswith("-O")] + [opt]
         key = tree_hash([INC, srcp, os.path.join(ROOT, "cpp", "common.hpp")], " ".join(flags))
@@ -306,7 +308,7 @@ def run_lines(exe, args, lines, timeout=1800, env=None):
     return rc, out.split("\n")[:-1] if out.endswith("\n") else out.split("\n"), err
 
 
-def run_sharded(exe, args, lines, shards=None, timeout=1800, env=None):
+def run_sharded(exe, args, lines, shards=None, timeout=1800, env=None, case_timeout=30):
     """Run a line-per-case driver over several processes; results in order.
     A crashed shard yields fewer lines than cases; missing lines become 'CRASH <stderr tail>'."""
     import concurrent.futures as cf
@@ -330,7 +332,7 @@ def run_sharded(exe, args, lines, shards=None, timeout=1800, env=None):
                 res.extend(out)
                 rest = ch[done:]
                 for k, ln in enumerate(rest):
-                    rc1, out1, err1 = run_lines(exe, args, [ln], timeout=timeout, env=env)
+                    rc1, out1, err1 = run_lines(exe, args, [ln], timeout=case_timeout, env=env)
                     if len(out1) >= 1 and rc1 == 0:
                         res.append(out1[0])
                     else:
